@@ -23,8 +23,11 @@ class Cell:
         self.ranges = ranges
         self.oracles = oracles
         self.extra_pre = extra_pre
-        self.defaults = {n: ranges[n][1] for n in self.names}  # horizon is computed from the largest values
-        self.text = render(spec, None, self.defaults)
+        self.defaults = {n: ranges[n][1] for n in self.names}  # replay rendering of parameters a counterexample leaves out
+        # the project is parsed with a distinct MARKER per parameter (just above its range, so that the horizon is
+        # computed from values at least as large as any in the range); inject() substitutes symbols for markers
+        self.markers = {n: ranges[n][1] + 1 + i for i, n in enumerate(self.names)}
+        self.text = render(spec, self.markers)
         self.fail_labels: list[str] = []
         self.need_scheduled = need_scheduled
         self.post_hook = post_hook
@@ -57,7 +60,7 @@ class Cell:
             info = world.prepare(project)
         if len(a) > len(self.names):
             project.attributes["scheduleGranularity"] = a[len(self.names)]
-        inject(self.spec, project, vals)
+        inject(self.spec, project, vals, self.markers, [0])
         warns = world.run_scenario(project, 0)
         obs = world.observe(project, 0, info)
         obs["warnings"] = warns
@@ -124,3 +127,114 @@ def analyze_cell(cell: Cell, budget_s: float, path_timeout: float = 90.0) -> dic
     if res["exhausted"] and res["cx_status"] == "CONFIRMED":
         return {**out, "status": R.DISCHARGED, "detail": f"path tree exhausted, CONFIRMED, {res['iterations']} paths"}
     return {**out, "status": R.EXPLORED, "detail": f"not exhausted: crosshair status {res['cx_status']}, {res['iterations']} paths in {res['wall_s']} s"}
+
+
+class RelCell(Cell):
+    """relational condition: several projects (specs) scheduled with the SAME symbolic values inside one traced call;
+    `relation(specs, vals, observations, infos)` returns failure labels"""
+
+    def __init__(self, specs: list[Spec], ranges: dict[str, tuple[int, int]], relation: Callable, extra_pre: Optional[Callable] = None,
+                 scenarios: Optional[list[int]] = None, before_each: Optional[Callable] = None):
+        self.specs = specs
+        self.spec = specs[0]
+        names: list[str] = []
+        for s in specs:
+            for n in s.params():
+                if n not in names:
+                    names.append(n)
+        self.names = names
+        assert set(names) == set(ranges), (names, ranges)
+        self.ranges = ranges
+        self.relation = relation
+        self.extra_pre = extra_pre
+        self.defaults = {n: ranges[n][1] for n in names}
+        self.markers = {n: ranges[n][1] + 1 + i for i, n in enumerate(names)}
+        self.texts = [render(s, self.markers) for s in specs]
+        self.text = "\n# ----\n".join(self.texts)
+        self.fail_labels = []
+        self.arg_names = self.names + ["G"]
+        self.scenarios = scenarios or [0] * len(specs)
+        self.before_each = before_each
+        self.post_hook = None
+
+    def _one(self, k: int, vals: dict, G: Any) -> tuple[dict, dict]:
+        spec = self.specs[k]
+        scs = self.scenarios[k]
+        sc_list = scs if isinstance(scs, list) else [scs]
+        with world.notrace():
+            if self.before_each is not None:
+                self.before_each(k)
+            project = world.parse(self.texts[k])
+            info = world.prepare(project, scenario=sc_list[0])
+        if G is not None:
+            project.attributes["scheduleGranularity"] = G
+        inject(spec, project, vals, self.markers)
+        all_obs = []
+        for n, sc in enumerate(sc_list):
+            if n > 0:
+                with world.notrace():
+                    project.attributes["scheduleGranularity"] = spec.resolution  # concrete while untraced
+                    world.prepare_next_scenario(project, sc, info)
+                if G is not None:
+                    project.attributes["scheduleGranularity"] = G
+            warns = world.run_scenario(project, sc)
+            obs = world.observe(project, sc, info)
+            obs["warnings"] = warns
+            all_obs.append(obs)
+        if isinstance(scs, list):
+            return {"by_scenario": all_obs}, info
+        return all_obs[0], info
+
+    def body(self, *a: int) -> bool:
+        vals = dict(zip(self.names, a))
+        G = a[len(self.names)] if len(a) > len(self.names) else None
+        obs_l, info_l = [], []
+        for k in range(len(self.specs)):
+            o, i = self._one(k, vals, G)
+            obs_l.append(o)
+            info_l.append(i)
+        fails = self.relation(self.specs, vals, obs_l, info_l)
+        self.fail_labels = fails
+        return not fails
+
+    def replay(self, vals: dict) -> dict:
+        from scriptplan.parser.tjp_parser import ProjectFileParser
+
+        obs_l, info_l, texts = [], [], []
+        for k, spec in enumerate(self.specs):
+            text = render(spec, vals, self.defaults)
+            texts.append(text)
+            with contextlib.redirect_stderr(io.StringIO()), contextlib.redirect_stdout(io.StringIO()):
+                if self.before_each is not None:
+                    self.before_each(k)
+                project = ProjectFileParser().parse(text)
+            info = {"base": project.attributes["start"], "g": project.attributes["scheduleGranularity"], "size": project.scoreboardSize()}
+            info["onshift"] = {r.fullId: [bool(r.data[0].onShift(i)) for i in range(info["size"])] for r in project.resources if r.leaf()}
+            scs = self.scenarios[k]
+            if isinstance(scs, list):
+                obs = {"by_scenario": [dict(world.observe(project, sc, info), warnings=None, replay=True) for sc in scs]}
+            else:
+                obs = world.observe(project, scs, info)
+                obs["warnings"] = None
+                obs["replay"] = True
+            obs_l.append(obs)
+            info_l.append(info)
+        fails = self.relation(self.specs, vals, obs_l, info_l)
+        return {"reproduced": bool(fails), "detail": "; ".join(fails[:4]) if fails else "holds natively through the public API", "tjp": "\n# ----\n".join(texts)}
+
+
+def same_dates(tids: list[str], oa: dict, ob: dict, what: str, shift: Any = 0, map_b: Optional[Callable[[str], str]] = None) -> list[str]:
+    fails = []
+    for tid in tids:
+        a = oa["tasks"][tid]
+        b = ob["tasks"][map_b(tid) if map_b else tid]
+        if bool(a["scheduled"]) != bool(b["scheduled"]):
+            fails.append(f"{what}: {tid} scheduled={a['scheduled']} vs {b['scheduled']}")
+            continue
+        for k in ("start", "end"):
+            x, y = a[k], b[k]
+            if (x is None) != (y is None):
+                fails.append(f"{what}: {tid} {k} {x} vs {y}")
+            elif x is not None and x + shift != y:
+                fails.append(f"{what}: {tid} {k} {x} vs {y}")
+    return fails
